@@ -753,7 +753,7 @@ def main(chk: lib.Check) -> int:
             tot["max_cells"] = max(tot["max_cells"], x["R"] * x["C"])
     chk.notes["view_evaluations"] = tot
     chk.notes["history_records"] = sum(1 for x in recs if x["job"][0] == "hist")
-    chk.notes["magnitude_cases"] = [[x["R"], x["C"], x.get("gen"), max(len(s[0]) for s in x["sols"])] for x in recs if x["job"][0] == "big"]
+    chk.notes["magnitude_cases"] = [[x["R"], x["C"], x.get("gen"), max((len(s[0]) for s in x["sols"]), default=0)] for x in recs if x["job"][0] == "big"]
     small_rec = next(x for x in recs if x["kind"] == "maze" and x["R"] == 2 and x["C"] == 2 and _nontrivial(x))
     chk.sample({k: small_rec[k] for k in ("R", "C", "conn", "nodes", "deg", "nb", "comp", "adj", "rt", "isconn")} | {"sols": small_rec["sols"][:3], "paths": small_rec["paths"][:5]})
     big = next(x for x in recs if x["job"][0] == "rand" and x["R"] * x["C"] > 9)
